@@ -212,7 +212,7 @@ class C01:
 
 # ====================================================================== shared scripts
 
-def layout_script(h, rng, store_one, n_events, checkpoint, restarts=True, compaction=True, min_cp=3):
+def layout_script(h, rng, store_one, n_events, checkpoint, restarts=True, compaction=True, min_cp=3, clock_back=0.0, preset=None):
     """Store n_events (callback store_one()) while walking through storage layouts; call checkpoint(tag)
     after every layout-changing step. The current lifetime must exist and types must be defined."""
     remaining = n_events
@@ -235,6 +235,14 @@ def layout_script(h, rng, store_one, n_events, checkpoint, restarts=True, compac
         tail += [("restart", "shutdown"), ("restart", "kill")]
     rng.shuffle(tail)
     script += [("cp",)] + tail[:rng.randrange(2, len(tail) + 1)]
+    if preset == "drain-then-clock-back":
+        # everything flushed and compacted out of level 0, nothing left in memory or in the WAL, clean restart with the
+        # wall clock behind the newest stored id, then new appends: the only witness of "newest id" is a compacted segment
+        script = []
+        for _ in range(rng.choice([2, 3, 4])):
+            script += [("stores", rng.randrange(1, 4)), ("flush",)]
+        script += [("compact",), ("compact",), ("cp",), ("restart-back", "shutdown"), ("stores", rng.randrange(1, 4)), ("cp",),
+                   ("flush",), ("stores", 1), ("restart", rng.choice(["shutdown", "kill"]))]
     for op in script:
         if op[0] == "stores":
             for _ in range(op[1]):
@@ -247,9 +255,15 @@ def layout_script(h, rng, store_one, n_events, checkpoint, restarts=True, compac
         elif op[0] == "compact":
             h.compact()
             checkpoint("compacted")
-        elif op[0] == "restart":
+        elif op[0] in ("restart", "restart-back"):
             h.end(op[1])
-            h.life(end="shutdown")
+            if op[0] == "restart-back" or rng.random() < clock_back:
+                # the wall clock comes back behind everything stored so far (NTP step, VM restore): ids and append
+                # order must not depend on it
+                h.life(end="shutdown", wall_ms=BASE_WALL_MS - rng.choice([1, 5_000, 3_600_000]))
+                h.cur["clock_back"] = True
+            else:
+                h.life(end="shutdown")
             for t in h.types:
                 h.select(t, tag="rebase")
             checkpoint("restart-" + op[1])
@@ -399,7 +413,8 @@ class C04(Base):
                         h.replay(focus, t, tag=tag)
                 if others and rng.random() < 0.5:
                     h.replay(rng.choice(others), tag=tag)
-            layout_script(h, rng, st, rng.randrange(4, 16), cp)
+            layout_script(h, rng, st, rng.randrange(4, 16), cp, clock_back=0.5 if i % 3 == 0 else 0.0,
+                          preset="drain-then-clock-back" if i % 6 == 4 else None)
             yield h.done()
 
 
@@ -953,6 +968,15 @@ def a_payload(k, rng):
             "at": D_BASE + rng.choice([0, 10, 3599, 3600, 86399, 86400, 7 * 86400, 40 * 86400])}
 
 
+C09_SCHEMA = dict(A_SCHEMA, opt="int | null")
+
+
+def c09_payload(k, rng):
+    p = a_payload(k, rng)
+    p["opt"] = rng.choice([None, None, None, 3, 5, 9, -2])
+    return p
+
+
 class C09(Base):
     id = "C09"
     technique = "deterministic simulation: aggregates vs fold over the selection issued in the same frozen state, across shards/tiers; feature-level attribution"
@@ -983,13 +1007,14 @@ class C09(Base):
                 if mk_ == "COUNT":
                     metrics = [("COUNT", None)]
                 elif mk_ == "COUNTF":
-                    metrics = [("COUNT", rng.choice(["note", "amt"]))]
+                    metrics = [("COUNT", rng.choice(["note", "amt", "opt"]))]
                 elif mk_ == "UNIQUE":
                     metrics = [("COUNT UNIQUE", rng.choice(["context_id", "tag", "cur"]))]
                 elif mk_ == "MULTI":
-                    metrics = [("COUNT", None), ("TOTAL", "amt"), ("AVG", "amt"), ("MIN", "amt"), ("MAX", "qty")]
+                    metrics = [("COUNT", None), ("TOTAL", "amt"), ("AVG", "amt"), ("MIN", rng.choice(["amt", "opt"])), ("MAX", rng.choice(["qty", "opt"]))]
                 else:
-                    metrics = [(mk_, rng.choice(["amt", "qty"]))]
+                    # `opt` is a nullable integer: partial aggregates of a group that saw only nulls meet partials with values
+                    metrics = [(mk_, rng.choice(["amt", "qty", "opt"]))]
                 feat.append(mk_)
                 q = dict(base, metrics=metrics)
                 y = rng.random()
@@ -1017,7 +1042,7 @@ class C09(Base):
                 qs.append(("agg", q, "agg:" + "+".join(feat)))
             return qs
         for i in range(C09.budgets[tier]["histories"]):
-            yield query_history("C09", seed, i, mk, schema=A_SCHEMA, payload=a_payload)
+            yield query_history("C09", seed, i, mk, schema=C09_SCHEMA, payload=c09_payload)
 
 
 # ====================================================================== C10
